@@ -645,8 +645,15 @@ def _worker(scratch, fin, fout):
     out = {'files': {m: variant[m].__file__ for m in PKG},
            'names': {m: sorted(n for n in dir(variant[m]) if not n.startswith('_') and callable(getattr(variant[m], n))) for m in PKG},
            'results': []}
+    nh = {}
     for c in cases:
-        out['results'].append(run_case(variant, c))
+        if nh.get(c['kernel'], 0) >= 2:
+            out['results'].append(('hang', 0.0))
+            continue
+        r = run_case(variant, c, budget=10.0 if c.get('iterates') else 3.0)
+        if r[0] == 'hang':
+            nh[c['kernel']] = nh.get(c['kernel'], 0) + 1
+        out['results'].append(r)
     pickle.dump(out, open(fout, 'wb'))
 
 
